@@ -383,6 +383,9 @@ class DynGraph(nx.Graph):
             start, max_end = app[-1]
             if end <= max_end:
                 # the span is already covered by the latest presence interval
+                if closing and end == max_end:
+                    # the call states when that interval ends: record its vanishing
+                    self.__add_event(u, v, "-", end + 1)
                 return
 
             if t <= max_end + 1:
